@@ -1,6 +1,7 @@
 package main
 
 import (
+	"fmt"
 	"math"
 	"strings"
 	"unicode/utf8"
@@ -10,11 +11,11 @@ import (
 
 // ---- pools --------------------------------------------------------------------
 
-var cleanTexts = []string{"", "a b c", " a  b ", "a,b,,c", "a\tb", "1 2 3", "x", "a,b c,d", "é,ü", "aéb c", "a\xffb c",
+var cleanTexts = []string{"", "10", "10 10", "10 10 10", "10,10", "10,b,10", "a b c", " a  b ", "a,b,,c", "a\tb", "1 2 3", "x", "a,b c,d", "é,ü", "aéb c", "a\xffb c",
 	"10 20", "a|b||c", ",a,", "aaa", "a.b.c", "1,2,3", "tab\there and  there", " ", "   ", "a,,b,", "a, b,  c", "7", "-3 4",
 	"a b c d e f g h i j k l m n o p q r s", "aa,a;a", "a\n b", "€ 😀"}
 var dirtyTexts = []string{"a b c", "a\vb", "a b", "a b\r", "\fa b", "a\u0085b", "　x y", "a\rb c", "\xc2\xa0"}
-var cleanAlpha = []string{"a", "b", "1", " ", "  ", ",", "\t", "|", "é", ".", "x", ";", "\n", "\xff", "aa"}
+var cleanAlpha = []string{"a", "b", "10", "1", " ", "  ", ",", "\t", "|", "é", ".", "x", ";", "\n", "\xff", "aa"}
 var dirtyAlpha = []string{" ", "\v", "\r", " ", "\f"}
 
 type nfVal struct {
@@ -159,7 +160,20 @@ func preamble(rsEmpty bool) []op {
 	return []op{{K: "P", T: recSep}, {K: "R", T: ""}, {K: "P", T: rs}}
 }
 
-var modKinds = []string{"suba", "gsuba", "app", "incr", "add2"}
+var modKinds = []string{"suba", "gsuba", "app", "incr", "add2", "id", "idsv"}
+
+// values for field assignments: they contain the usual separators (so that the field list is no
+// longer the split of the rebuilt $0), or are the text the typing probe looks for
+var sepTexts = []string{"10", "x y", "u,v", "a|b", "p;q", "m  n", "1,2 3", "10 10", "q,,r", " ", "x\ty", "aXXb"}
+
+var smallIdx = []idx{{Kind: 'c', X: 1, Lit: true}, {Kind: 'c', X: 2}, {Kind: 'c', X: 3, Lit: true}, {Kind: 'c', X: 0}, {Kind: 'c', X: -1}, {Kind: 'n', D: 0}, {Kind: 'n', D: 1}}
+
+func assignText(r *hx.Rand) string {
+	if r.Intn(3) == 0 {
+		return r.Pick(sepTexts)
+	}
+	return randText(r, true)
+}
 
 func randOp(r *hx.Rand, clean, allowBig, beforePreamble bool) []op {
 	for {
@@ -172,15 +186,17 @@ func randOp(r *hx.Rand, clean, allowBig, beforePreamble bool) []op {
 			return []op{{K: "R", T: randText(r, clean)}}
 		case k < 20:
 			return []op{{K: "S", I: idx{Kind: 'c', X: F64([]float64{0, 0.5, -0.5}[r.Intn(3)]), Lit: r.Bool()}, T: randText(r, clean)}}
-		case k < 31:
+		case k < 27:
 			return []op{{K: "G", I: randIdx(r, clean, false)}}
+		case k < 31:
+			return []op{{K: "T", I: smallIdx[r.Intn(len(smallIdx))]}}
 		case k < 48:
-			return []op{{K: "S", I: randIdx(r, clean, allowBig), T: randText(r, true)}}
+			return []op{{K: "S", I: randIdx(r, clean, allowBig), T: assignText(r)}}
 		case k < 51:
 			if beforePreamble {
 				continue
 			}
-			return []op{{K: "L", I: randIdx(r, true, false), T: randText(r, true)}}
+			return []op{{K: "L", I: randIdx(r, true, false), T: assignText(r)}}
 		case k < 57:
 			return []op{{K: "M", I: randIdx(r, clean, false), T: r.Pick(modKinds)}}
 		case k < 59:
@@ -233,16 +249,161 @@ func randScript(r *hx.Rand, allowBig bool) script {
 	return script{Ops: ops}
 }
 
+// ---- directed scripts -----------------------------------------------------------
+
+type fsRegime struct {
+	fs   op     // SetFS operation (nil K: keep the default)
+	ofs  string // an OFS that the FS would split at
+	rec  string // a record with three fields "10", "b", "10" in this regime
+	sepv string // a field value that contains a separator of this regime
+}
+
+var regimes = []fsRegime{
+	{op{}, " ", "10 b 10", "x y"},
+	{fsText(","), ",", "10,b,10", "u,v"},
+	{fsText("|"), "|", "10|b|10", "a|b"},
+	{fsText("\t"), "\t", "10\tb\t10", "x\ty"},
+	{fsRegex(plus(lit(','))), ",", "10,b,,10", "u,,v"},
+	{fsRegex(cls([2]rune{' ', ' '}, [2]rune{',', ','})), " ", "10 b,10", "p,q"},
+	{fsRegex(cat(lit('X'), lit('X'))), "XX", "10XXbXX10", "aXXb"},
+}
+
+// lastLine: $0 as the implementation has it after the script (nil if abbreviated / stopped)
+func lastLine(s script) (string, bool) {
+	tr := runImpl(s)
+	if len(tr) != len(s.Ops) || len(tr) == 0 {
+		return "", false
+	}
+	p := strings.SplitN(tr[len(tr)-1], " r=", 2)
+	if len(p) != 2 {
+		return "", false
+	}
+	return unabbr(p[1])
+}
+
+// sameTextScript: make the field list differ from the split of the rebuilt $0 (a field value
+// containing the separator, NF extension, a field emptied ...) with the fields already split,
+// then set the record to exactly the text $0 has at that moment -- through $0 = $0, a saved
+// copy, an assignment of the same text, a new input record with that text, getline $0 --
+// and look at everything again.  The record must be split afresh.
+func sameTextScript(r *hx.Rand) script {
+	reg := regimes[r.Intn(len(regimes))]
+	ops := preamble(r.Intn(8) == 0)
+	if reg.fs.K != "" {
+		ops = append(ops, reg.fs)
+	}
+	if r.Intn(3) > 0 {
+		ops = append(ops, op{K: "O", T: reg.ofs})
+	}
+	if r.Intn(6) == 0 {
+		ops = append(ops, op{K: "U", T: []string{"c", "t"}[r.Intn(2)]})
+	}
+	V, G := op{K: "V"}, op{K: "G", I: idx{Kind: 'n', D: 1}}
+	ops = append(ops, op{K: "R", T: []string{reg.rec, "p q", reg.rec + reg.ofs + "z"}[r.Intn(3)]}, V)
+	rounds := 1 + r.Intn(2)
+	for k := 0; k < rounds; k++ {
+		for j := 1 + r.Intn(2); j > 0; j-- {
+			switch r.Intn(6) {
+			case 0, 1, 2:
+				ops = append(ops, op{K: "S", I: smallIdx[r.Intn(3)], T: []string{reg.sepv, reg.sepv, "10", ""}[r.Intn(4)]})
+			case 3:
+				ops = append(ops, op{K: "W", V: F64(4 + r.Intn(3)), VS: fmt.Sprint(4 + r.Intn(1))})
+				ops[len(ops)-1].VS = fmt.Sprint(int(ops[len(ops)-1].V))
+			case 4:
+				ops = append(ops, op{K: "M", I: smallIdx[r.Intn(3)], T: "app"})
+			default:
+				ops = append(ops, op{K: "L", I: smallIdx[r.Intn(3)], T: reg.sepv})
+			}
+		}
+		switch r.Intn(6) {
+		case 0:
+			ops = append(ops, op{K: "M", I: idx{Kind: 'c', X: 0}, T: "id"})
+		case 1:
+			ops = append(ops, op{K: "M", I: idx{Kind: 'c', X: 0}, T: "idsv"})
+		default:
+			text, ok := lastLine(script{Ops: ops})
+			if !ok || strings.Contains(text, recSep) {
+				ops = append(ops, op{K: "M", I: idx{Kind: 'c', X: 0}, T: "id"})
+				break
+			}
+			switch r.Intn(3) {
+			case 0:
+				ops = append(ops, op{K: "R", T: text})
+			case 1:
+				ops = append(ops, op{K: "S", I: idx{Kind: 'c', X: 0, Lit: r.Bool()}, T: text})
+			default:
+				ops = append(ops, op{K: "L", I: idx{Kind: 'c', X: 0}, T: text})
+			}
+		}
+		ops = append(ops, V, G, op{K: "T", I: smallIdx[r.Intn(3)]})
+	}
+	return script{Ops: ops}
+}
+
+// typingScript: several records; fields (and NF, $0) assigned in earlier ones; the typing probe
+// on the same positions in later ones.  A field that comes from input compares as a number
+// when it looks like one, whatever was assigned at that position in an earlier record.
+func typingScript(r *hx.Rand) script {
+	reg := regimes[r.Intn(len(regimes))]
+	ops := preamble(false)
+	if reg.fs.K != "" {
+		ops = append(ops, reg.fs)
+	}
+	if r.Bool() {
+		ops = append(ops, op{K: "O", T: reg.ofs})
+	}
+	probes := func() {
+		for _, i := range []idx{{Kind: 'c', X: 1, Lit: true}, {Kind: 'c', X: 3}, {Kind: 'c', X: 0}} {
+			if r.Intn(4) > 0 {
+				ops = append(ops, op{K: "T", I: i})
+			}
+		}
+	}
+	nrec := 2 + r.Intn(3)
+	for k := 0; k < nrec; k++ {
+		switch r.Intn(4) {
+		case 0:
+			ops = append(ops, op{K: "S", I: idx{Kind: 'c', X: 0}, T: reg.rec})
+		case 1:
+			ops = append(ops, op{K: "L", I: idx{Kind: 'c', X: 0}, T: reg.rec})
+		default:
+			ops = append(ops, op{K: "R", T: []string{reg.rec, reg.rec, "10"}[r.Intn(3)]})
+		}
+		if r.Intn(3) == 0 {
+			probes()
+		}
+		for j := r.Intn(3); j > 0; j-- {
+			switch r.Intn(5) {
+			case 0, 1:
+				ops = append(ops, op{K: "S", I: []idx{{Kind: 'c', X: 1, Lit: true}, {Kind: 'c', X: 3}, {Kind: 'c', X: 5}}[r.Intn(3)], T: "10"})
+			case 2:
+				ops = append(ops, op{K: "L", I: idx{Kind: 'c', X: F64(1 + 2*r.Intn(2))}, T: "10"})
+			case 3:
+				ops = append(ops, op{K: "M", I: idx{Kind: 'c', X: F64(1 + 2*r.Intn(2))}, T: "id"})
+			default:
+				n := 1 + r.Intn(5)
+				ops = append(ops, op{K: "W", V: F64(n), VS: fmt.Sprint(n)})
+			}
+		}
+		probes()
+	}
+	ops = append(ops, op{K: "V"})
+	return script{Ops: ops}
+}
+
 // the small alphabet for exhaustive short scripts; a full view follows every operation
 func alphabet() []op {
 	c := func(x float64) idx { return idx{Kind: 'c', X: F64(x)} }
 	return []op{
-		{K: "R", T: "a b c"},
-		{K: "R", T: "a,b,,c"},
+		{K: "R", T: "10 b c"},
+		{K: "R", T: "10,b,,c"},
 		{K: "S", I: c(0), T: " x  y "},
 		{K: "G", I: c(1)},
 		{K: "G", I: c(-1)},
-		{K: "S", I: c(2), T: "Z"},
+		{K: "S", I: c(2), T: "Z W"},
+		{K: "S", I: c(1), T: "10"},
+		{K: "M", I: c(0), T: "id"},
+		{K: "T", I: c(1)},
 		{K: "S", I: idx{Kind: 'n', D: 2}, T: "W"},
 		{K: "S", I: c(-1), T: "Q"},
 		{K: "W", V: 1, VS: "1"},
@@ -300,6 +461,14 @@ func fixedScripts() []script {
 		mk(op{K: "U", T: "c"}, op{K: "R", T: "a b c"}, op{K: "S", I: c(2), T: "x,\"y\""}, V, op{K: "S", I: c(5), T: " lead"}, V), // CSV output mode
 		mk(fsText(","), op{K: "S", I: c(0), T: "a,b\nc"}, op{K: "P", T: ""}, op{K: "N"}),                                 // lazy split consults the current RS
 		mk(fsText(""), op{K: "R", T: "aéb"}, V),                                                                       // empty FS
+		// setting the record to the text it already has re-splits it
+		mk(op{K: "R", T: "p q"}, V, op{K: "S", I: c(1), T: "x y"}, op{K: "M", I: c(0), T: "id"}, V),
+		mk(op{K: "R", T: "p q"}, V, op{K: "W", V: 4, VS: "4"}, op{K: "M", I: c(0), T: "idsv"}, V),
+		mk(fsText(","), op{K: "O", T: ","}, op{K: "R", T: "a,b"}, V, op{K: "S", I: c(2), T: "u,v"}, op{K: "S", I: c(0), T: "a,u,v"}, V),
+		mk(op{K: "R", T: "p q"}, V, op{K: "S", I: c(1), T: "x y"}, op{K: "R", T: "x y q"}, V),
+		// flags of an earlier record do not survive into the next one
+		mk(op{K: "R", T: "10 10"}, op{K: "S", I: c(1), T: "10"}, op{K: "T", I: c(1)}, op{K: "R", T: "10 10"}, op{K: "T", I: c(1)}, op{K: "T", I: c(2)}),
+		mk(op{K: "R", T: "b 10"}, op{K: "S", I: c(3), T: "10"}, op{K: "R", T: "10 10 10"}, op{K: "T", I: c(3)}, op{K: "T", I: c(0)}),
 		// the largest NF and the largest index (one record of 10^6 fields)
 		mk(op{K: "R", T: "a b c"}, op{K: "W", V: 1000000, VS: "1000000"}, op{K: "G", I: c(-1000000)}, op{K: "S", I: c(1000000), T: "x"}, op{K: "N"}),
 	}
@@ -325,7 +494,14 @@ func genScripts(o hx.Opts, r *hx.Rand) []script {
 		big = 40
 	}
 	for i := 0; i < n; i++ {
-		out = append(out, randScript(r, i < big))
+		switch {
+		case i%10 == 3:
+			out = append(out, sameTextScript(r))
+		case i%10 == 7:
+			out = append(out, typingScript(r))
+		default:
+			out = append(out, randScript(r, i < big))
+		}
 	}
 	return out
 }
